@@ -165,6 +165,25 @@ int main(int argc, char** argv) {
                     for (int k = 0; k < ml.size; k++)
                         if (ml[k].promoteTo() != Piece::EMPTY) { cat = "promo"; ci = 6; break; }
                 }
+                // a mate given by the 100th reversible half-move (root clock 99; 98/97: one or two quiet plies earlier) is still a mate
+                if (ml.size > 1 && want(7, 6)) {
+                    bool quietMate = false;
+                    for (int k = 0; k < ml.size && !quietMate; k++) {
+                        int pc = pos.getPiece(ml[k].from());
+                        if (pos.getPiece(ml[k].to()) != Piece::EMPTY || pc == Piece::WPAWN || pc == Piece::BPAWN) continue;
+                        Position nx(pos); UndoInfo ui2; nx.makeMove(ml[k], ui2);
+                        MoveList rl; legalMoves(nx, rl);
+                        quietMate = rl.size == 0 && MoveGen::inCheck(nx);
+                    }
+                    if (quietMate) {
+                        Position fm(pos);
+                        fm.setEpSquare(Square(-1));
+                        fm.setHalfMoveClock(rnd.nextInt(4) ? 99 : 98);
+                        fm.setFullMoveCounter(70);
+                        MoveList fl; legalMoves(fm, fl);
+                        emit("fiftymate", fm, TextIO::toFEN(fm), {}, fl.size); quota[7]++; emitted++;
+                    }
+                }
                 if (cat && want(ci, ci == 4 ? 10 : 8) && (ci == 6 || rnd.nextInt(3) == 0)) { emit(cat, pos, start, hist, ml.size); quota[ci]++; emitted++; }
                 else if (!cat && rnd.nextInt(25) == 0 && want(0, 45)) { emit("game", pos, start, hist, ml.size); quota[0]++; emitted++; }
                 if (ml.size == 0 || pos.getHalfMoveClock() >= 100) break;
